@@ -307,11 +307,25 @@ func famC15(g *Gen, o *Out, n int, thorough bool) {
 			sc := car.NewSelectiveCar(ctx, readStore{d}, []car.Dag{{Root: d.root, Selector: sel}}, ropts...)
 			d.loads = nil
 			var buf bytes.Buffer
-			var cbs []string
-			err := sc.Write(&buf, func(b car.Block) error {
-				cbs = append(cbs, fmt.Sprintf("%x:%d:%d", b.BlockCID.Bytes(), b.Offset, b.Size))
-				return nil
-			})
+			// one to three callbacks: each must be told the same true offsets and sizes
+			nw := 1 + g.pick(3)
+			wlists := make([][]string, nw)
+			var wcbs []car.OnNewCarBlockFunc
+			for i := 0; i < nw; i++ {
+				i := i
+				wcbs = append(wcbs, func(b car.Block) error {
+					wlists[i] = append(wlists[i], fmt.Sprintf("%x:%d:%d", b.BlockCID.Bytes(), b.Offset, b.Size))
+					return nil
+				})
+			}
+			err := sc.Write(&buf, wcbs...)
+			cbs := wlists[0]
+			allSame := true
+			for _, l := range wlists[1:] {
+				if strings.Join(l, ",") != strings.Join(cbs, ",") {
+					allSame = false
+				}
+			}
 			loads := rootLoads(&buf)
 			res := "r=" + classifyTrav(err)
 			if err == nil {
@@ -319,13 +333,30 @@ func famC15(g *Gen, o *Out, n int, thorough bool) {
 				if len(cbs) == 0 {
 					res += "-"
 				}
-				prep, err := sc.Prepare()
+				// Prepare with zero to three callbacks; Dump must tell each of them what Write told
+				nd := g.pick(4)
+				dlists := make([][]string, nd)
+				var dcbs []car.OnNewCarBlockFunc
+				for i := 0; i < nd; i++ {
+					i := i
+					dcbs = append(dcbs, func(b car.Block) error {
+						dlists[i] = append(dlists[i], fmt.Sprintf("%x:%d:%d", b.BlockCID.Bytes(), b.Offset, b.Size))
+						return nil
+					})
+				}
+				prep, err := sc.Prepare(dcbs...)
 				if err != nil {
 					res += " prep=err"
 				} else {
 					var dump bytes.Buffer
 					derr := prep.Dump(ctx, &dump)
-					res += fmt.Sprintf(" size=%d cids=%s dumpsame=%d", prep.Size(), cidsStr(prep.Cids()), b2i(derr == nil && bytes.Equal(dump.Bytes(), buf.Bytes())))
+					for _, l := range dlists {
+						if strings.Join(l, ",") != strings.Join(cbs, ",") {
+							allSame = false
+						}
+					}
+					res += fmt.Sprintf(" size=%d cids=%s dumpsame=%d", prep.Size(), cidsStr(prep.Cids()),
+						b2i(derr == nil && allSame && bytes.Equal(dump.Bytes(), buf.Bytes())))
 				}
 			}
 			o.Line(fmt.Sprintf("trav kind=rootsel %s eng=%s loads=%s", desc, engOf(res), cidsStr(loads)), res)
